@@ -11,7 +11,7 @@ import (
 
 // c12StructHeap: correspondence for the struct layer (lean/Goat/Model/Struct.lean: a heap of instances that own a
 // copy of their type's field table and share its method table). One history = a script struct type with nf int
-// fields, instances made by the host (NewStruct) and by the script (&T{}), aliases of them, field stores and loads
+// fields, instances made by the host (NewStruct) and by the script (&T{...}), with and without initialisers, aliases of them, field stores and loads
 // through the host API (SetAttr / GetAttr), methods added by later evaluations, and method values taken from an
 // instance and called (the result names the method and the receiver's f0). The same operations go to the model
 // (`st type|new|set|get|method`) and the answers are compared line by line.
@@ -77,15 +77,33 @@ func (c *Ctx) c12StructHeap() error {
 			switch {
 			case op < 10 && nInst < 6: // a new instance: by the host or by the script
 				var v goat.Value
+				// a literal with initialisers (some fields, in any order) or without
+				var initHost []goat.Value
+				var initSrc, initModel []string
 				if r.Intn(2) == 0 {
-					if e := try(func() { v = goat.NewStruct(vm.Get("main.T"), nil) }); e != nil {
+					for k := 0; k < 1+r.Intn(3); k++ {
+						f, val := r.Intn(nf), r.Intn(9000)
+						dup := false
+						for _, w := range initModel {
+							dup = dup || w == fmt.Sprint(f)
+						}
+						if dup {
+							continue // (Go rejects a literal that names a field twice)
+						}
+						initHost = append(initHost, goat.String(fmt.Sprintf("f%d", f)), goat.Int(val))
+						initSrc = append(initSrc, fmt.Sprintf("f%d: %d", f, val))
+						initModel = append(initModel, fmt.Sprint(f), fmt.Sprint(val))
+					}
+				}
+				if r.Intn(2) == 0 {
+					if e := try(func() { v = goat.NewStruct(vm.Get("main.T"), initHost) }); e != nil {
 						bad("NewStruct", e)
 						failed = true
 						break
 					}
 					c.Rep.Count("heap-new-host")
 				} else {
-					src := fmt.Sprintf("x%d := &T{}\n", nScript)
+					src := fmt.Sprintf("x%d := &T{%s}\n", nScript, strings.Join(initSrc, ", "))
 					evals = append(evals, src)
 					if _, err := vm.Eval(fstest.MapFS{}, "main", src); err != nil {
 						bad(src, err)
@@ -97,7 +115,12 @@ func (c *Ctx) c12StructHeap() error {
 					c.Rep.Count("heap-new-script")
 				}
 				vars = append(vars, ref{v, nInst})
-				lines = append(lines, "st new")
+				if len(initModel) > 0 {
+					lines = append(lines, "st lit "+strings.Join(initModel, " "))
+					c.Rep.Count("heap-literal-with-fields")
+				} else {
+					lines = append(lines, "st new")
+				}
 				impl = append(impl, fmt.Sprintf("ref %d", nInst))
 				nInst++
 			case op < 16: // an alias: another variable holding the same reference
